@@ -256,9 +256,23 @@ func c12(e *Env) {
 		return
 	}
 	overridden, untouched := 0, 0
+	knownReprepareSeen := e.Res.Stats["probe.c12.c08_known_reprepare_frame_seen"] > 0
 	for _, r := range recs {
 		req, g := r.req, r.g
 		expectOverride := len(unsupported) > 0 && !g.Select && inList[g.CL]
+		if _, scripted := w.Script[req.Token]; !scripted && !forgetful && !knownReprepareSeen {
+			// nothing was injected for this request: it reaches a backend and is answered by it,
+			// overridden or not (a request that the proxy fails to re-encode is not "forwarded")
+			if len(w.Attempts[req.Token]) == 0 {
+				w.Violate("c12-served", "request-never-reached-a-backend("+req.Kind+" "+req.Client.Version.String()+")", fmt.Sprintf("%s [%s, select=%v] (override expected: %v) reached no backend; the client received %v", req, g.Desc, g.Select, expectOverride, replyMsg(req)))
+				return
+			}
+			if em, isErr := replyMsg(req).(message.Error); isErr {
+				w.Violate("c12-served", "request-failed-without-cause("+req.Kind+")", fmt.Sprintf("%s [%s, select=%v] (override expected: %v) was answered with %v although nothing was injected", req, g.Desc, g.Select, expectOverride, em))
+				return
+			}
+			e.Res.Stats["oracle.c12.served_checked"]++
+		}
 		for i, a := range w.Attempts[req.Token] {
 			what := fmt.Sprintf("%s [%s, select=%v] attempt #%d at %s (unsupported list %v, override %v)", req, g.Desc, g.Select, i+1, a.Conn, unsupported, override)
 			if !expectOverride {
